@@ -49,6 +49,9 @@ def make_op(spec: dict):
     if kind == "random":
         cc, seed = spec["country"], spec["seed"]
         return lambda: lib.outcome(lambda: str(lib.IBAN.random(cc, random=random.Random(seed))))
+    if kind == "from_bban":
+        cc, bban = spec["country"], spec["bban"]
+        return lambda: lib.outcome(lambda: str(lib.IBAN.from_bban(cc, bban)))
     if kind == "components":
         text = spec["text"]
         return lambda: lib.outcome(lambda: tuple(getattr(lib.IBAN(text), n) for n in (
@@ -281,6 +284,11 @@ def build_harnesses(tier: str):
     pairs += [("components-de", "components-gb"), ("components-gb", "components-is"),
               ("components-fo", "components-dk"), ("components-de", "parse-gb"),
               ("generate", "generate-de2"), ("generate-gb", "generate-gb2"), ("generate-de2", "random")]
+    # an assembly (from_bban inside generate / random) next to the validation of a mistyped text: what
+    # the assembly switches on for itself must not be visible to the other thread
+    ctl["from-bban"] = {"op": "from_bban", "country": "DE", "bban": "370400440532013000"}
+    pairs += [("generate", "parse-typo"), ("random", "parse-typo"), ("generate-be", "parse-gb-typo"),
+              ("from-bban", "parse-typo"), ("from-bban", "parse-bad"), ("random-es", "nat-es-bad")]
     # calls whose national check RAISES from inside the algorithm (Norwegian check digit 10; method
     # 68 ten-digit account with a 7th digit other than 9), next to ordinary national checks: whatever
     # such a call leaves behind (a lock, a flag) must not affect the other thread
@@ -308,6 +316,23 @@ def build_harnesses(tier: str):
 def run_harness(args):
     try:
         return _run_harness(args)
+    except report.HarnessError as e:
+        if isinstance(e, sched.Hang) or "ReplayDivergence" not in str(e):
+            if not isinstance(e, sched.Hang):
+                raise
+        else:
+            # the same calls under the same schedule prefix took a different path than before: the
+            # library carries state from one execution into the next.  Re-explore this harness with
+            # every execution in its own fork of this (pre-exploration) process image.
+            return _run_harness_forked(args)
+        name, specs, bound, opcode, tier = args
+        part = par.Part()
+        part["evals"] += 1
+        part.violation(f"{name.split(':')[0]}:threads-hang",
+                       {"kind": "c14hang", "harness": name, "ops": specs, "opcode": opcode},
+                       "every call returns", str(e))
+        part.stat("harnesses")
+        return part.done()
     except sched.Hang as e:
         name, specs, bound, opcode, tier = args
         part = par.Part()
@@ -317,6 +342,35 @@ def run_harness(args):
                        "every call returns", str(e))
         part.stat("harnesses")
         return part.done()
+
+
+def _ops_factory(specs):
+    if specs and specs[0].get("op") == "shared":
+        return lambda: make_shared_ops(specs[0])
+    return lambda: [make_op(s) for s in specs]
+
+
+def _solo_all(mk):
+    return [op() for op in mk()]
+
+
+def _run_harness_forked(args):
+    name, specs, bound, opcode, tier = args
+    part = par.Part()
+    mk = _ops_factory(specs)
+    solo = par.in_child(_solo_all, mk)
+    for ch, results, steps, pre, log in sched.explore_forked(mk, bound, opcode):
+        part.count((name, ch.answers), nontrivial=pre > 0)
+        part.stat("scheduling_steps_executed", sum(steps))
+        if results != solo:
+            wrong = [i for i, (x, y) in enumerate(zip(results, solo)) if x != y]
+            part.violation(f"{name.split(':')[0]}:thread-result-differs-from-solo",
+                           {"kind": "c14forked", "harness": name, "ops": specs, "answers": list(ch.answers),
+                            "opcode": opcode, "switches": log, "wrong_threads": wrong}, solo, results)
+    part.stat("harnesses")
+    part.stat("harnesses_rerun_with_fresh_process_per_execution")
+    part.stat(f"bound_{bound}_{'opcode' if opcode else 'line'}_harnesses")
+    return part.done()
 
 
 def _run_harness(args):
@@ -466,6 +520,14 @@ def shard(args):
 
 
 def replay(case: dict) -> dict:
+    if case["kind"] == "c14forked":
+        mk = _ops_factory(case["ops"])
+        solo = par.in_child(_solo_all, mk)
+        res = [par.in_child(sched._cold_exec_ops, mk, tuple(case["answers"]), None, case.get("opcode", False))[2]
+               for _ in range(2)]
+        if res[0] != res[1]:
+            raise report.HarnessError(f"forked schedule replay is not deterministic: {res}")
+        return {"ok": res[0] == solo, "expected": solo, "observed": res[0]}
     if case["kind"] == "c14hang":
         specs = case["ops"]
         mk = lambda: [make_op(s) for s in specs]  # noqa: E731
